@@ -748,7 +748,36 @@ def r18_5(ctx, prog, crate):
     no_cli_defaults(ctx, "R18.5", prog, crate, only={"bytes-format"})
 
 
+def r18_6(ctx, prog, crate):
+    """Sizes keep max(0, 4 - d) decimals whatever their unit: on every path of format_bytes the number printed is
+    format_f64(scaled value, sig_figs) with the caller's sig_figs unchanged, the scaled value and the suffix both taken from
+    the one scale_value(val, bytes_format) result, and the suffix looked up with ScaleFormat::Bytes(bytes_format). (Byte
+    figures are per-iteration means: 10.5 B is a legitimate value, dropping the decimals of the unit `B` prints 10 B.)"""
+    from lib.patheval import PathEval
+    b = prog.body("util::fmt::format_bytes", crate)
+    if not ctx.anchor("R18.6", "util::fmt::format_bytes", 1 if b else 0, 1):
+        return
+    ctx.saw(b)
+    sums = PathEval(b).run()
+    if not ctx.check(bool(sums), "R18.6", ["format_bytes", "readable"], "cannot summarise format_bytes", b.where(0)):
+        return
+    sv = ("site", "util::fmt::scale_value")
+    for n, sm in enumerate(sums):
+        ff = [c for c in sm.calls if c[0] == "util::fmt::format_f64"]
+        sx = [c for c in sm.calls if c[0] == "util::fmt::Scale::suffix"]
+        ok = len(ff) == 1 and len(ff[0][1]) == 2 and ff[0][1][1] == ("arg", 2, ()) and ff[0][1][0][0] == "field" and ff[0][1][0][1][:2] == sv and \
+            ff[0][1][0][2] == (0,) and tuple(ff[0][1][0][1][3]) == (("arg", 1, ()), ("arg", 3, ()))
+        ctx.check(ok, "R18.6", ["format_bytes", "number-is-format_f64(scaled, sig_figs)"],
+                  "a path of format_bytes does not print format_f64(scale_value(val, bytes_format).0, sig_figs) with the caller's sig_figs "
+                  "(conditions %s)" % [str(c[0])[:60] for c in sm.conds], b.where(sm.blocks[-1]))
+        ok2 = len(sx) == 1 and sx[0][1][0][0] == "field" and sx[0][1][0][1][:2] == sv and sx[0][1][0][2] == (1,) and \
+            sx[0][1][1][0] == "adt" and sx[0][1][1][2] == "Bytes" and tuple(sx[0][1][1][3]) == (("arg", 3, ()),)
+        ctx.check(ok2, "R18.6", ["format_bytes", "suffix-of-the-same-scale"], "the suffix does not come from the same scale_value result with "
+                  "ScaleFormat::Bytes(bytes_format)", b.where(sm.blocks[-1]))
+
+
 def run(ctx, prog, crate):
+    r18_6(ctx, prog, crate)
     r18_5(ctx, prog, crate)
     r18_1(ctx, prog, crate)
     r18_2(ctx, prog, crate)
